@@ -101,6 +101,37 @@ def corruptions(g, rng):
             continue
         tgt.fields["input"][field] = val
         yield "illtyped-" + kind, p
+    # a step that a constant switches off is checked like any other: ill-typed and missing inputs of that very step
+    for spelling in (False, "false", "no", 0):
+        for kind, mut in (("literal-int", lambda st: st.fields["input"].__setitem__("n", "notanint")), ("missing-required-input", lambda st: st.fields["input"].pop("tag", None)),
+                          ("unknown-input-key", lambda st: st.fields["input"].__setitem__("zzz", "v")), ("no-input-at-all", lambda st: st.fields.pop("input", None))):
+            p = clone()
+            tgt = p.step(last.name)
+            tgt.fields["enabled"] = spelling
+            mut(tgt)
+            yield "illtyped-%s-on-step-disabled-by-%r" % (kind, spelling), p
+        break_after_first = False
+    for s_ in prog.steps:
+        if s_.kind == "foreach":
+            for kind, mut in (("items-missing", lambda st: st.fields.pop("items", None)), ("item-wrong-type", lambda st: st.fields.__setitem__("items", [{"tag": ["x"]}])), ("parallelism-text", lambda st: st.fields.__setitem__("parallelism", "many"))):
+                p = clone()
+                tgt = p.step(s_.name)
+                tgt.fields["enabled"] = False
+                mut(tgt)
+                yield "illtyped-%s-on-loop-disabled-by-constant" % kind, p
+            break
+    # cycles closed by a reference under an optional tag (nothing waits for a soft-optional value, yet it is a reference)
+    if len(plugin_steps) >= 2 and depends_on(prog, last.name, first.name):
+        from ..model import Opt as _Opt
+        for wait in (False, True):
+            for f in ("wait_for", "input.a", "stop_if"):
+                p = clone()
+                node = {"later": _Opt(Ref(last.name, "outputs", "success"), wait)}
+                if f == "input.a":
+                    p.step(first.name).fields["input"]["a"] = node
+                else:
+                    p.step(first.name).fields[f] = node
+                yield "cycle-through-%s-optional-in-%s" % ("wait" if wait else "soft", f), p
     # optional members are typed like plain ones: a value that may be absent at run time must still fit when it is present
     if last is not first:
         from ..model import Opt
